@@ -2,6 +2,7 @@ package c30
 
 import (
 	"reflect"
+	"sort"
 
 	"github.com/zmap/zcrypto/tls"
 	"pgregory.net/rapid"
@@ -435,6 +436,42 @@ func genCase(t *rapid.T) Case {
 	}
 	m := tls.VerifC30New(kind)
 	v := g.genStruct(reflect.TypeOf(m).Elem())
+	// sparse ServerHellos (1 in 4): the fixed part plus ONE or two of the optional fields, everything
+	// else absent - a message whose extension block holds a single extension (of any kind, also
+	// only an unrecognised one) or none; with every field generated independently such messages
+	// practically never occur
+	if core, ok := helloCore[kind]; ok && rapid.IntRange(0, 3).Draw(t, "sparse") == 0 {
+		var opt []string
+		for name := range v.S {
+			if !core[name] {
+				opt = append(opt, name)
+			}
+		}
+		sort.Strings(opt)
+		keep := map[string]bool{}
+		for i, n := 0, rapid.IntRange(0, 2).Draw(t, "sparse-keep"); i < n && len(opt) > 0; i++ {
+			name := opt[rapid.IntRange(0, len(opt)-1).Draw(t, "sparse-field")]
+			keep[name] = true
+			if p, ok := helloPartner[name]; ok {
+				keep[p] = true // a flag and the data it announces stay together
+			}
+		}
+		for _, name := range opt {
+			if !keep[name] {
+				v.del(name)
+			}
+		}
+	}
 	g.fixup(kind, v)
 	return Case{Kind: kind, Msg: v}
+}
+
+// helloCore: the fields of the fixed part of the hello messages (always present on the wire)
+var helloCore = map[string]map[string]bool{
+	"serverHelloMsg": {"vers": true, "random": true, "sessionId": true, "cipherSuite": true, "compressionMethod": true},
+}
+
+var helloPartner = map[string]string{
+	"secureRenegotiationSupported": "secureRenegotiation", "secureRenegotiation": "secureRenegotiationSupported",
+	"selectedIdentityPresent": "selectedIdentity", "selectedIdentity": "selectedIdentityPresent",
 }
